@@ -105,3 +105,9 @@ class DaeUnsupportedError(DaeError):
 
 class DaeSaveValidationError(DaeError):
     """Raised when XML validation fails when saving."""
+
+
+DaeRawLoadErrors = (ValueError, TypeError, AttributeError, LookupError, ArithmeticError)
+"""The built-in exceptions that parsing corrupted data produces (``float('x')``,
+``None.startswith``, ``int(None)``, reshaping an index array of the wrong length,
+...). The loaders report them as :class:`DaeMalformedError`."""
